@@ -5,8 +5,10 @@
 
 mod attrs;
 mod canon;
+mod conc;
 mod det;
 mod eqv;
+mod feat;
 mod gen;
 mod gperf;
 mod grad;
@@ -32,6 +34,8 @@ fn main() {
         "c04" | "c07" | "c08" | "c18" => eqv::main(cmd, arg(&args, 2, 0), arg(&args, 3, 100), arg(&args, 4, 40)),
         "attrs" => attrs::main(arg(&args, 2, 0), arg(&args, 3, 100), arg(&args, 4, 50)),
         "bpm" | "det" => det::main(cmd, arg(&args, 2, 0), arg(&args, 3, 100), arg(&args, 4, 30)),
+        "feat" => feat::main(arg(&args, 2, 0), arg(&args, 3, 100), arg(&args, 4, 30)),
+        "conc" => conc::main(arg(&args, 2, 0), arg(&args, 3, 100), arg(&args, 4, 30)),
         "gperf" => gperf::main(arg(&args, 2, 0), arg(&args, 3, 100), arg(&args, 4, 40)),
         "grad" => grad::main(arg(&args, 2, 0), arg(&args, 3, 100), arg(&args, 4, 40)),
         _ => {
